@@ -105,10 +105,15 @@ def check_helical(v, start, verts, center, r0, r1, total, z0, height, sign, tol,
     reliable = [r > eps_r for r in rad]
     for i in range(n - 1, 0, -1):
         if reliable[i] and reliable[i - 1]:
-            step = norm_angle(ang[i] - ang[i - 1])
-            if step * sign < -1e-9:
-                v.bad("angle-not-monotonic", index=i, step=step, direction=sign)
-                return
+            # the advance from vertex i-1 to vertex i measured IN the direction of travel, in [0, 2*pi):
+            # with a resolution coarser than the curve two consecutive vertices may legitimately be more
+            # than half a turn apart, so the principal value of the difference says nothing about the
+            # direction.  A step backwards by d shows up here as 2*pi - d and is caught below, where the
+            # unwrapped sweep must come out at exactly the requested total (it would be a turn too long).
+            fwd = ((ang[i] - ang[i - 1]) * sign) % (2 * math.pi)
+            if fwd > 2 * math.pi - 1e-9:
+                fwd = 0.0
+            step = sign * fwd
             phi[i - 1] = phi[i] - step
         else:
             # angle undefined at (near) zero radius: use radius linearity itself
